@@ -38,12 +38,12 @@ package yoda
 // the collector never waits for a result that no worker sends.
 //@ func handleRawRequests
 //@ modifies ChanSent, ChanLast, ChanRecv, RPCok
-//@ requires ChanSent == ChanRecv
+//@ requires ChanRecv <= ChanSent
 //@ ensures len(reports) == len(reqs)
-//@ ensures ChanSent == ChanRecv
+//@ ensures ChanSent - ChanRecv == old(ChanSent) - old(ChanRecv)
 //@ loop 0: invariant ChanSent == old(ChanSent) + #i && ChanRecv == old(ChanRecv)
 //@ loop 1: invariant len(reports) == #i && ChanRecv == old(ChanRecv) + #i && ChanSent == old(ChanSent) + len(reqs)
-//@ loop 2: invariant len(reports) == len(reqs) && ChanSent == ChanRecv
+//@ loop 2: invariant len(reports) == len(reqs) && ChanSent - ChanRecv == old(ChanSent) - old(ChanRecv)
 
 // what the chain returns for a request id / a data source id (RPC: assumed)
 //@ spec chainRequest(id Int) types.Request uninterpreted
@@ -61,11 +61,39 @@ package yoda
 // C19: a request that does not list this validator is skipped without queuing anything; otherwise AT MOST one
 // report is queued, and the queued report is for this request id, from this validator, with exactly one raw
 // report per raw request of the request.
+// call history: how many handlers were started for which request id (bookkeeping at the call sites, see `counts`)
+//@ ghost Count_handleRequest map[uint64]int
 //@ func handleRequest
+//@ counts id
 //@ modifies ChanSent, ChanLast, ChanRecv, ChanLastMsg, RPCok
-//@ requires ChanSent == ChanRecv && len(c.keys) > 0
-//@ ensures ChanSent - ChanRecv == 0 || ChanSent - ChanRecv == 1
+//@ requires ChanRecv <= ChanSent && len(c.keys) > 0
+//@ ensures (ChanSent - ChanRecv) - (old(ChanSent) - old(ChanRecv)) == 0 || (ChanSent - ChanRecv) - (old(ChanSent) - old(ChanRecv)) == 1
 //@ ensures !(exists j :: 0 <= j && j < len(chainRequest(id).RequestedValidators) && chainRequest(id).RequestedValidators[j] == addrstr(c.validator)) ==> ChanSent == old(ChanSent)
-//@ ensures ChanSent - ChanRecv == 1 ==> ChanLastMsg.msg.RequestID == id && ChanLastMsg.msg.Validator == addrstr(c.validator) && len(ChanLastMsg.msg.RawReports) == len(chainRequest(id).RawRequests)
+//@ ensures (ChanSent - ChanRecv) - (old(ChanSent) - old(ChanRecv)) == 1 ==> ChanLastMsg.msg.RequestID == id && ChanLastMsg.msg.Validator == addrstr(c.validator) && len(ChanLastMsg.msg.RawReports) == len(chainRequest(id).RawRequests)
 //@ loop 0: invariant !hasMe && (forall j :: 0 <= j && j < #i ==> chainRequest(id).RequestedValidators[j] != addrstr(c.validator))
 //@ loop 1: invariant len(rawRequests) == #i && ChanSent == old(ChanSent) && ChanRecv == old(ChanRecv)
+
+// C19: the request ids yoda acts on are ALL the values of the wanted attribute in ALL events of the wanted type (a
+// transaction may carry several oracle requests: each of them must reach its handler), and nothing else
+//@ func GetEventValues
+//@ ensures forall i, j :: 0 <= i && i < len(events) && events[i].Type == evType && 0 <= j && j < len(events[i].Attributes) && events[i].Attributes[j].Key == evKey
+//@        ==> (exists k :: 0 <= k && k < len(res) && res[k] == events[i].Attributes[j].Value)
+//@ ensures forall k :: 0 <= k && k < len(res) ==> (exists i, j :: 0 <= i && i < len(events) && events[i].Type == evType && 0 <= j && j < len(events[i].Attributes) && events[i].Attributes[j].Key == evKey && res[k] == events[i].Attributes[j].Value)
+//@ loop 0: invariant forall i, j :: 0 <= i && i < #i && events[i].Type == evType && 0 <= j && j < len(events[i].Attributes) && events[i].Attributes[j].Key == evKey
+//@        ==> (exists k :: 0 <= k && k < len(res) && res[k] == events[i].Attributes[j].Value)
+//@ loop 0: invariant forall k :: 0 <= k && k < len(res) ==> (exists i, j :: 0 <= i && i < #i && events[i].Type == evType && 0 <= j && j < len(events[i].Attributes) && events[i].Attributes[j].Key == evKey && res[k] == events[i].Attributes[j].Value)
+//@ loop 1: invariant forall i, j :: 0 <= i && i < #i_out && events[i].Type == evType && 0 <= j && j < len(events[i].Attributes) && events[i].Attributes[j].Key == evKey
+//@        ==> (exists k :: 0 <= k && k < len(res) && res[k] == events[i].Attributes[j].Value)
+//@ loop 1: invariant forall j :: 0 <= j && j < #i && events[#i_out].Attributes[j].Key == evKey ==> (exists k :: 0 <= k && k < len(res) && res[k] == events[#i_out].Attributes[j].Value)
+//@ loop 1: invariant forall k :: 0 <= k && k < len(res) ==> (exists i, j :: 0 <= i && i <= #i_out && events[i].Type == evType && 0 <= j && j < len(events[i].Attributes) && (i < #i_out || j < #i) && events[i].Attributes[j].Key == evKey && res[k] == events[i].Attributes[j].Value)
+//@ loop 1: invariant events[#i_out].Type == evType
+
+// C19: a transaction's request events start one handler per request id - but never for a request that is already in the
+// pending set (at start-up yoda subscribes to new transactions BEFORE it sweeps the requests already pending on chain: a
+// request seen by both must be reported once, by the sweep)
+//@ func handleTransaction
+//@ modifies ChanSent, ChanLast, ChanRecv, ChanLastMsg, RPCok, Count_handleRequest
+//@ requires ChanRecv <= ChanSent && len(c.keys) > 0
+//@ ensures forall r Int :: has(c.pendingRequests, r) && c.pendingRequests[r] ==> Count_handleRequest[r] == old(Count_handleRequest)[r]
+//@ loop 0: invariant ChanRecv <= ChanSent
+//@ loop 0: invariant forall r Int :: has(c.pendingRequests, r) && c.pendingRequests[r] ==> Count_handleRequest[r] == old(Count_handleRequest)[r]
